@@ -121,6 +121,9 @@ where
             poly_len,
             "n cannot be converted to f64: aborting"
         );
+        // The zero polynomial has no coefficients: lay it out as the constant polynomial 0
+        // instead of dividing by a zero column count below.
+        let poly_len = core::cmp::max(poly_len, 1);
         let t = calculate_t::<F>(self.sec_param(), self.distance(), poly_len).unwrap();
         let n = 1 << log2((ceil_div(2 * poly_len, t) as f64).sqrt().ceil() as usize);
         let m = ceil_div(poly_len, n);
